@@ -53,8 +53,17 @@ TABLE: list[ClassDef] = [
     ClassDef("Base", "ASTNode"),
     ClassDef("LeafA", "Base", [FieldDef("v", "int", "int", "0")]),
     ClassDef("LeafB", "Base", [FieldDef("v", "int", "int", "0")]),
+    # child fields declared compare=False (children are content whatever the flag says)
+    ClassDef("NcKids", "Base", [FieldDef("kid", "Base | None", "opt", "None", classes=ANY),
+                                FieldDef("trivia", "tuple[Base, ...]", "tuple", "()", compare=False, classes=ANY),
+                                FieldDef("note", "Base | None", "opt", "None", compare=False, classes=ANY)]),
+    # a per-instance value that is neither a constructor argument nor compared (a serial number)
+    ClassDef("Serial", "Base", [FieldDef("v", "int", "int", "0"),
+                                FieldDef("stamp", "int", "int", None, compare=False, init=False,
+                                         extra_args="default_factory=_next_serial")]),
     # a node class that implements the Collection protocol itself, and a holder typed with exactly that class
-    ClassDef("CollBlock", "Base", [FieldDef("stmts", "tuple[Base, ...]", "tuple", "()", classes=ANY)],
+    ClassDef("CollBlock", "Base", [FieldDef("stmts", "tuple[Base, ...]", "tuple", "()", classes=ANY),
+                                   FieldDef("result", "Base | None", "opt", "None", classes=ANY)],
              extra_body="\n    def __len__(self):\n        return len(self.stmts)\n\n    def __iter__(self):\n        return iter(self.stmts)\n\n"
                         "    def __contains__(self, x):\n        return any(x is s for s in self.stmts)\n"),
     ClassDef("Fn", "Base", [FieldDef("body", "CollBlock", "one", None, classes=("CollBlock",)),
@@ -169,6 +178,7 @@ TABLE: list[ClassDef] = [
             FieldDef("ft", "tuple[int, str]", "ft", '(0, "")'),
             FieldDef("nc", "str", "str", '""', compare=False),
             FieldDef("ni", "int", "int", "7", init=False),
+            FieldDef("_note", "str", "str", '""', compare=False),
         ],
     ),
     ClassDef(
@@ -316,6 +326,14 @@ SYNTH_ORIGIN = GeneratedCodeOrigin(MemoryTextSource("synthetic", source_uri="mem
 
 def _auto_leaf():
     return LeafA(v=77)
+
+
+_SERIAL = [0]
+
+
+def _next_serial():
+    _SERIAL[0] += 1
+    return _SERIAL[0]
 
 
 class BombError(Exception):
